@@ -5,7 +5,7 @@ force-constant conversion table are recomputed from the documented unit NAMES wi
 (2) physical equivalence: one polar crystal expressed in every calculator's units gives the same THz frequencies
 (incl. LO-TO splitting) through phonopy.load defaults; (3) structure files: write -> read with the same interface for
 unit cells, supercells and displaced supercells of interleaved / triclinic / out-of-cell inputs; (4) FORCE_SETS
-pairing: create_FORCE_SETS accepts consistent outputs and refuses outputs belonging to another displacement.
+pairing: create_FORCE_SETS accepts consistent outputs and refuses outputs belonging to another displacement; force outputs of 14 calculators written by the harness in their own layout are parsed atom by atom (all line orders where lines carry ids); LAMMPS end to end incl. the frame rotation.
 """
 from __future__ import annotations
 
